@@ -519,6 +519,28 @@ theorem C06_gen_facts :
     Pyro.Gen.C06.lenComparisons = ["Gt 100", "NotEq 4"] ∧
     (packHeader 0 0 0 0 0 0 zeroCorr).length = Pyro.Gen.C06.headerSize := by decide
 
+/-- **C06_gen_conditions.**  The three decisions of the codec — compress or not, sender refuses, receiver
+    refuses — are translated from the source's own `if` conditions on every run; for all arguments
+    they are the conditions the model's `isCompressed`, `encode` (C06_sender_limit) and `parseHeader`
+    use, and the sender checks its limit after the compression step. -/
+theorem C06_gen_conditions :
+    (∀ (cfg : Cfg) (m : Msg), Pyro.Gen.C06.compressCond cfg.compression m.payload.length = isCompressed cfg m) ∧
+    (∀ (cfg : Cfg) (z : Zlib) (m : Msg),
+        Pyro.Gen.C06.senderRefuses ((wirePayload cfg z m).length + annSize m.anns) cfg.maxSize = true ↔
+          encode cfg z m = .error .tooLarge) ∧
+    (∀ (cfg : Cfg) (h : Bytes) (H : Header), parseHeader cfg h = .ok H →
+        Pyro.Gen.C06.receiverRefuses H.dataSize H.annSize cfg.maxSize = false) ∧
+    Pyro.Gen.C06.senderLimitAfterCompression = true := by
+  refine ⟨?_, ?_, ?_, by decide⟩
+  · intro cfg m; simp [Pyro.Gen.C06.compressCond, isCompressed, compressThreshold]
+  · intro cfg z m
+    rw [C06_sender_limit]
+    simp [Pyro.Gen.C06.senderRefuses]
+  · intro cfg h H hp
+    have := parseHeader_ok_size cfg h H hp
+    simp only [Pyro.Gen.C06.receiverRefuses, decide_eq_false_iff_not, Nat.not_lt]
+    omega
+
 /-! ### non-vacuity -/
 
 private def zId : Zlib := { compress := fun p => 0x78 :: p, decompress := fun d => d.tail? }
